@@ -206,6 +206,6 @@ META = dict(
                  "harness proves add_variable computes them as the running sum)"],
     stubs=["struct", "bytes", "bytearray", "math.ceil on exact rationals", "logging -> null"],
     required_reach=["read", "write", "layout", "own-length"],
-    limits=dict(quick=dict(query_timeout_ms=60000), thorough=dict(query_timeout_ms=300000)),
+    limits=dict(quick=dict(query_timeout_ms=60000), thorough=dict(query_timeout_ms=300000, crosscheck_every=5, crosscheck_max=30)),
     validate_every=dict(quick=3, thorough=1),
 )
